@@ -298,7 +298,7 @@ class PIT(DNAS):
             elif self.full_cost:
                 # TODO: this part is constant and can be pre-computed for efficiency
                 # Should be re-computed when changing cost spec or value of full_cost
-                v = vars(layer)
+                v = dict(vars(layer))
                 v.update(shapes_dict(node))
                 cost = cost + cost_fn_map[lname](v)
         return cost
